@@ -1333,7 +1333,12 @@ func directedJobs(prop, tier string, seed int64) []job {
 		v := v
 		add("script", func(a *App, mon *Mon) *Run { runScript(a, mon, seed, v); return mon.run })
 		// ... and once more on a chain of its own, through BeginBlock / EndBlock / Commit
-		add("script-commit", func(a *App, mon *Mon) *Run { a.nextCommit = true; runScript(a, mon, seed, v); a.nextCommit = false; return mon.run })
+		add("script-commit", func(a *App, mon *Mon) *Run {
+			a.nextCommit = true
+			runScript(a, mon, seed, v)
+			a.nextCommit = false
+			return mon.run
+		})
 	}
 	cc := cadenceCases()
 	for _, i := range sampleIdx(rng, len(cc), q(60*weight("C09", "C10", "C11", "C16", "C12"), len(cc))) {
